@@ -239,7 +239,7 @@ def run(chk):
         except Exception as e:
             chk.obligation("handler correspondence ran", False, str(e)[-1500:])
     corpus_first(chk, hy)
-    run_oracle(chk, 900000 if thorough else 36000, 8 if thorough else 6)
+    run_oracle(chk, 900000 if thorough else 24000, 8 if thorough else 6)
 
 
 def replay(path):
